@@ -17,6 +17,8 @@ use prqlc_parser::parser::pr;
 static CURRENT_LOG: RwLock<Option<DebugLog>> = RwLock::new(None);
 
 pub fn log_start() {
+    #[cfg(prql_verif)]
+    verif::gate("LogStart");
     let mut lock = CURRENT_LOG.write().unwrap();
     assert!(lock.is_none());
 
@@ -30,10 +32,21 @@ pub fn log_start() {
 
         suppress_count: 0,
     });
+    #[cfg(prql_verif)]
+    verif::event("LogStart", &lock);
 }
 
 pub fn log_finish() -> Option<DebugLog> {
+    #[cfg(prql_verif)]
+    verif::gate("LogFinish");
     let mut lock = CURRENT_LOG.write().unwrap();
+    #[cfg(prql_verif)]
+    {
+        let taken = lock.take();
+        verif::event("LogFinish", &lock);
+        return taken;
+    }
+    #[cfg(not(prql_verif))]
     lock.take()
 }
 
@@ -47,14 +60,20 @@ pub fn log_stage(stage: Stage) {
 }
 
 pub fn log_entry(entry: impl FnOnce() -> DebugEntryKind) {
+    #[cfg(prql_verif)]
+    verif::gate("LogEntry");
     let mut lock: std::sync::RwLockWriteGuard<'_, Option<DebugLog>> = CURRENT_LOG.write().unwrap();
     if let Some(log) = lock.as_mut() {
         if log.suppress_count > 0 {
+            #[cfg(prql_verif)]
+            verif::event("LogEntry", &lock);
             return;
         }
 
         log.entries.push(DebugEntry { kind: entry() });
     }
+    #[cfg(prql_verif)]
+    verif::event("LogEntry", &lock);
 }
 
 pub fn log_is_enabled() -> bool {
@@ -153,12 +172,18 @@ pub struct LogSuppressLock(PhantomData<usize>);
 
 impl LogSuppressLock {
     fn new() -> Option<Self> {
+        #[cfg(prql_verif)]
+        verif::gate("SuppressAcquire");
         let mut lock = CURRENT_LOG.write().unwrap();
         if let Some(log) = lock.as_mut() {
             log.suppress_count += 1;
 
+            #[cfg(prql_verif)]
+            verif::event("SuppressAcquire", &lock);
             Some(LogSuppressLock(PhantomData))
         } else {
+            #[cfg(prql_verif)]
+            verif::event("SuppressNone", &lock);
             None
         }
     }
@@ -166,9 +191,48 @@ impl LogSuppressLock {
 
 impl Drop for LogSuppressLock {
     fn drop(&mut self) {
+        #[cfg(prql_verif)]
+        verif::gate("SuppressRelease");
         let mut lock = CURRENT_LOG.write().unwrap();
         if let Some(log) = lock.as_mut() {
             log.suppress_count -= 1;
+        }
+        #[cfg(prql_verif)]
+        verif::event("SuppressRelease", &lock);
+    }
+}
+
+/// Observation points for the verification harness in /verif. Compiled only with `--cfg prql_verif`;
+/// without an observer installed every call returns immediately.
+#[cfg(prql_verif)]
+pub mod verif {
+    use std::sync::RwLock;
+
+    /// `(action, phase, log present, suppress_count, number of entries)`.
+    /// phase 0 = gate: before the lock on the current log is taken (lets a driver force a schedule);
+    /// phase 1 = event: after the state change, while the write lock is still held.
+    pub type Observer = fn(&'static str, u8, bool, usize, usize);
+
+    static OBSERVER: RwLock<Option<Observer>> = RwLock::new(None);
+
+    pub fn set_observer(observer: Option<Observer>) {
+        *OBSERVER.write().unwrap_or_else(|e| e.into_inner()) = observer;
+    }
+
+    pub(crate) fn gate(action: &'static str) {
+        let observer = *OBSERVER.read().unwrap_or_else(|e| e.into_inner());
+        if let Some(observer) = observer {
+            observer(action, 0, false, 0, 0)
+        }
+    }
+
+    pub(crate) fn event(action: &'static str, log: &Option<super::DebugLog>) {
+        let observer = *OBSERVER.read().unwrap_or_else(|e| e.into_inner());
+        if let Some(observer) = observer {
+            let (suppress, entries) = (log.as_ref())
+                .map(|l| (l.suppress_count, l.entries.len()))
+                .unwrap_or((0, 0));
+            observer(action, 1, log.is_some(), suppress, entries)
         }
     }
 }
